@@ -240,14 +240,61 @@ theorem C17_visited_chain (arms : List Arm) : ∀ (k : Nat) (s : StateV) (env : 
         exact ⟨envi, .succ hstep hr⟩
       · simp at h
 
+/-! ### array-pattern states -/
+
+/-- Before an arm is tried every variable of its pattern — in the prefix and in the suffix of an
+    array pattern alike — is unbound, so a revisited arm binds the current elements afresh
+    instead of comparing them with what an earlier visit bound. -/
+theorem C17_pattern_variables_rebound (pats : List P) (env : Env) (x : Nat) (h : x ∈ pats.flatMap varsOfP) :
+    (clearVars pats env).get x = none := by
+  unfold clearVars Env.get
+  have : (List.filter (fun p => !((pats.flatMap varsOfP).contains p.1)) env).find? (fun p => p.1 == x) = none := by
+    rw [List.find?_eq_none]
+    intro p hp hpx
+    rw [List.mem_filter] at hp
+    have hx : p.1 = x := by simpa using hpx
+    rw [hx] at hp
+    have : (pats.flatMap varsOfP).contains x = true := by simpa using h
+    rw [this] at hp
+    simp at hp
+  rw [this]; rfl
+
+/-- the variables of an array pattern are those of its prefix and of its suffix -/
+theorem C17_array_pattern_variables (pre suf : List SP) (spread : Bool) (x : Nat) :
+    x ∈ varsOfP (.arr pre spread suf) ↔ (x ∈ pre.flatMap varsOfSP ∨ x ∈ suf.flatMap varsOfSP) := by
+  simp only [varsOfP, List.mem_append]
+
+/-- Bindings other than the arm's own pattern variables are kept (inputs stay visible). -/
+theorem C17_other_bindings_kept (pats : List P) (env : Env) (x : Nat) (h : x ∉ pats.flatMap varsOfP) :
+    (clearVars pats env).get x = env.get x := by
+  unfold clearVars Env.get
+  congr 1
+  induction env with
+  | nil => rfl
+  | cons p env ih =>
+    simp only [List.filter_cons]
+    by_cases hp : (pats.flatMap varsOfP).contains p.1 = true
+    · simp only [hp, Bool.not_true, Bool.false_eq_true, if_false]
+      have hne : (p.1 == x) = false := by
+        have : p.1 ∈ pats.flatMap varsOfP := by simpa using hp
+        have : p.1 ≠ x := fun e => h (e ▸ this)
+        simpa using this
+      simp only [List.find?_cons, hne]
+      exact ih
+    · have hp' : (pats.flatMap varsOfP).contains p.1 = false := by simpa using hp
+      simp only [hp', Bool.not_false, if_true, List.find?_cons]
+      cases (p.1 == x) with
+      | true => rfl
+      | false => exact ih
+
 /-! ### the call: what is rejected, what kind is returned -/
 
-theorem C17_wrong_argument_count (m : Machine) (k : Nat) (args : List S) (h : m.inputs.length ≠ args.length) :
+theorem C17_wrong_argument_count (m : Machine) (k : Nat) (args : List V) (h : m.inputs.length ≠ args.length) :
     invoke m k args = .error .arity := by
   simp [invoke, h]
 
-theorem bindInputs_kinds : ∀ (ds : List (Nat × NK)) (args : List S) (env env' : Env),
-    bindInputs ds args env = .ok env' → ∀ p ∈ ds.zip args, kindOfS p.2 = some p.1.2 := by
+theorem bindInputs_kinds : ∀ (ds : List (Nat × IK)) (args : List V) (env env' : Env),
+    bindInputs ds args env = .ok env' → ∀ p ∈ ds.zip args, kindOfV p.2 = some p.1.2 := by
   intro ds
   induction ds with
   | nil => intro args env env' _ p hp; cases args <;> simp at hp
@@ -268,8 +315,8 @@ theorem bindInputs_kinds : ∀ (ds : List (Nat × NK)) (args : List S) (env env'
 
 /-- Arguments of the wrong kind are rejected: a call that runs had every argument of its
     declared kind. -/
-theorem C17_argument_kinds (m : Machine) (k : Nat) (args : List S) (r : Result) (h : invoke m k args = .ok r) :
-    m.inputs.length = args.length ∧ ∀ p ∈ m.inputs.zip args, kindOfS p.2 = some p.1.2 := by
+theorem C17_argument_kinds (m : Machine) (k : Nat) (args : List V) (r : Result) (h : invoke m k args = .ok r) :
+    m.inputs.length = args.length ∧ ∀ p ∈ m.inputs.zip args, kindOfV p.2 = some p.1.2 := by
   simp only [invoke] at h
   split at h
   · cases h
@@ -304,7 +351,7 @@ theorem validate_ok (m : Machine) (h : validate m = .ok ()) (hne : m.arms ≠ []
 /-- A machine that runs has an arm for every declared state, for its start state and for
     every transition target: a transition to an undeclared state and a declared state
     without an arm are rejected. -/
-theorem C17_well_formed_or_rejected (m : Machine) (k : Nat) (args : List S) (r : Result)
+theorem C17_well_formed_or_rejected (m : Machine) (k : Nat) (args : List V) (r : Result)
     (h : invoke m k args = .ok r) (hne : m.arms ≠ []) :
     (∀ d ∈ m.declared, d ∈ m.arms.map (·.name)) ∧ m.start.1 ∈ m.arms.map (·.name) ∧
     (∀ t ∈ targets m, t ∈ m.arms.map (·.name)) := by
@@ -316,7 +363,7 @@ theorem C17_well_formed_or_rejected (m : Machine) (k : Nat) (args : List S) (r :
     | ok env =>
       rw [hb] at h
       simp only at h
-      cases hs : evalList env m.start.2 with
+      cases hs : evalAs env m.start.2 with
       | error e => rw [hs] at h; cases h
       | ok vs =>
         rw [hs] at h
@@ -327,7 +374,7 @@ theorem C17_well_formed_or_rejected (m : Machine) (k : Nat) (args : List S) (r :
 
 /-- What a machine with a declared output kind returns is a value of that kind — never a
     halted state, never a value of another kind. -/
-theorem C17_output_kind (m : Machine) (k : Nat) (args : List S) (r : Result) (kd : NK)
+theorem C17_output_kind (m : Machine) (k : Nat) (args : List V) (r : Result) (kd : NK)
     (h : invoke m k args = .ok r) (hk : m.outKind = some kd) : ∃ v, r = .value v ∧ kindOfS v = some kd := by
   simp only [invoke] at h
   split at h
@@ -337,7 +384,7 @@ theorem C17_output_kind (m : Machine) (k : Nat) (args : List S) (r : Result) (kd
     | ok env =>
       rw [hb] at h
       simp only at h
-      cases hs : evalList env m.start.2 with
+      cases hs : evalAs env m.start.2 with
       | error e => rw [hs] at h; cases h
       | ok vs =>
         rw [hs] at h
@@ -360,9 +407,9 @@ theorem C17_output_kind (m : Machine) (k : Nat) (args : List S) (r : Result) (kd
               · cases h
 
 /-- The run starts in the declared start state with the given arguments. -/
-theorem C17_starts_in_start_state (m : Machine) (k : Nat) (args : List S) (r : Result)
+theorem C17_starts_in_start_state (m : Machine) (k : Nat) (args : List V) (r : Result)
     (h : invoke m k args = .ok r) :
-    ∃ env vs, bindInputs m.inputs args [] = .ok env ∧ evalList env m.start.2 = .ok vs ∧
+    ∃ env vs, bindInputs m.inputs args [] = .ok env ∧ evalAs env m.start.2 = .ok vs ∧
       run m.arms k ⟨m.start.1, vs⟩ env = .ok r := by
   simp only [invoke] at h
   split at h
@@ -372,7 +419,7 @@ theorem C17_starts_in_start_state (m : Machine) (k : Nat) (args : List S) (r : R
     | ok env =>
       rw [hb] at h
       simp only at h
-      cases hs : evalList env m.start.2 with
+      cases hs : evalAs env m.start.2 with
       | error e => rw [hs] at h; cases h
       | ok vs =>
         rw [hs] at h
